@@ -57,6 +57,7 @@ class Event:
     elt: ast.AST | None = None  # element expression node
     nvar: str | None = None  # neighbour variable of the neighbour iteration the event sits in
     receiver: str = ""
+    key: ast.AST | None = None  # `R[key].append(..)` / `R.setdefault(key, []).append(..)`: the entry of the result the element goes to
 
 
 @dataclass
@@ -91,6 +92,18 @@ class SubtreeSite:
     guard: Formula | None = None
     extra: list = field(default_factory=list)  # filters of a filtered copy of the collection, renamed to x
     fills: list = field(default_factory=list)  # statements that put the looked-up sub-tree(s) into `target` when that is not the statement of the call
+
+
+@dataclass
+class NodeMap:
+    """`D[n] = o` for every node n of get_all_submodules_of(graph, o), o ranging over a collection of filters (or one filter): a
+    lookup from graph node to the object(s) whose sub-tree holds it."""
+
+    var: str
+    collection: str | None
+    param: str | None
+    single: bool  # one object per node (`D[n] = o` overwrites) as opposed to all of them (`D.setdefault(n, []).append(o)`)
+    store: ast.AST
 
 
 @dataclass
@@ -129,6 +142,7 @@ class SearchModel:
     subject_param: str | None = None
     object_param: str | None = None
     subst: object = None  # substitution used for the guards (boolean locals, boolean helpers, canonical hierarchy atom)
+    node_maps: dict[str, NodeMap] = field(default_factory=dict)
 
     def hier(self, nvar: str | None = None) -> Formula:
         """Canonical atom 'the edge between the current node and the neighbour is a hierarchy edge' (correctly oriented)."""
@@ -1270,24 +1284,39 @@ class _Site:
     node: ast.AST  # Call | AugAssign | Assign | AnnAssign | Return
     elements: list[tuple[ast.AST, ast.AST | None]]
     method: str
+    key: ast.AST | None = None
+
+
+def _receiver_of(e: ast.AST) -> tuple[str, ast.AST | None]:
+    """(collection variable, key) of the receiver of a mutation: `R`, `self.r`, `R[k]`, `R.setdefault(k, [])`."""
+    d = dotted(e)
+    if d:
+        return d, None
+    if isinstance(e, ast.Subscript) and isinstance(e.value, ast.Name) and not isinstance(e.slice, ast.Slice):
+        return e.value.id, e.slice
+    if isinstance(e, ast.Call) and isinstance(e.func, ast.Attribute) and e.func.attr == "setdefault" and isinstance(e.func.value, ast.Name) and len(e.args) == 2 and _is_empty_collection(e.args[1]):
+        return e.func.value.id, e.args[0]
+    return "", None
 
 
 def _mutation_sites(fn: ast.AST, single: dict[str, ast.expr], result_vars: set[str]) -> list[_Site]:
     out: list[_Site] = []
     for n in ast.walk(fn):
-        if isinstance(n, ast.Call) and isinstance(n.func, ast.Attribute) and n.func.attr in _ADDERS and dotted(n.func.value):
+        if isinstance(n, ast.Call) and isinstance(n.func, ast.Attribute) and n.func.attr in _ADDERS and _receiver_of(n.func.value)[0]:
             m = n.func.attr
+            recv, key = _receiver_of(n.func.value)
             if m in ("append", "add", "appendleft") and len(n.args) == 1:
-                out.append(_Site(dotted(n.func.value), n, [(n.args[0], None)], m))
+                out.append(_Site(recv, n, [(n.args[0], None)], m, key))
             elif m == "insert" and len(n.args) == 2:
-                out.append(_Site(dotted(n.func.value), n, [(n.args[1], None)], m))
+                out.append(_Site(recv, n, [(n.args[1], None)], m, key))
             elif m in ("extend", "update", "extendleft") and n.args:
                 els: list = []
                 for a in n.args:
                     els += _iter_elements(a, single)
-                out.append(_Site(dotted(n.func.value), n, els, m))
-        elif isinstance(n, ast.AugAssign) and isinstance(n.op, (ast.Add, ast.BitOr)) and dotted(n.target):
-            out.append(_Site(dotted(n.target), n, _iter_elements(n.value, single), "+="))
+                out.append(_Site(recv, n, els, m, key))
+        elif isinstance(n, ast.AugAssign) and isinstance(n.op, (ast.Add, ast.BitOr)) and _receiver_of(n.target)[0]:
+            recv, key = _receiver_of(n.target)
+            out.append(_Site(recv, n, _iter_elements(n.value, single), "+=", key))
         elif isinstance(n, (ast.Assign, ast.AnnAssign)) and n.value is not None:
             tgt = n.targets[0] if isinstance(n, ast.Assign) and len(n.targets) == 1 else getattr(n, "target", None)
             if isinstance(tgt, ast.Name):
@@ -1850,11 +1879,12 @@ def build(repo: Repo, fi: FuncInfo) -> SearchModel | None:
             k = "record"
         else:
             continue
-        model.events.append(Event(k, s.node, norm(elt), g, text, it_ is not None, elt, it_.var if it_ is not None else None, s.receiver))
+        model.events.append(Event(k, s.node, norm(elt), g, text, it_ is not None, elt, it_.var if it_ is not None else None, s.receiver, s.key))
 
     # ---- parameters and sets
     _classify_params(model, single)
     model.subtree_sites = _subtree_sites(model, single)
+    model.node_maps = _node_maps(model)
     for st in model.subtree_sites:
         key = st.target if st.target is not None else norm(st.call)
         if st.param is not None and (st.assigned or st.target is None):
@@ -1868,7 +1898,7 @@ def build(repo: Repo, fi: FuncInfo) -> SearchModel | None:
         elif isinstance(n, ast.AnnAssign) and isinstance(n.target, ast.Name) and n.value is not None:
             tgt, val = n.target.id, n.value
         if tgt is not None:
-            ids = _parent_ids(val, v.param_names, {k: x for k, x in single.items() if k != tgt})
+            ids = _parent_ids(val, v.param_names + _object_vars(model), {k: x for k, x in single.items() if k != tgt})
             if ids is not None:
                 model.parent_id_sets[tgt] = ids
     _loop_built_parent_ids(model, sites, single)
@@ -1903,12 +1933,114 @@ def build(repo: Repo, fi: FuncInfo) -> SearchModel | None:
     # ---- role
     if fi.name == SUBMODULES:
         model.role = "submodules"
-    elif model.accumulated_sets or model.collection_params:
+    elif model.accumulated_sets or (model.collection_params and not _starts_from_filter_nodes(model)):
         model.role = "other"
     else:
+        # also the batched form: one walk from the subject's node for a whole collection of objects
         model.role = "explicit"
     _subject_object(model)
     return model
+
+
+def _map_lookup(m: SearchModel, e: ast.AST) -> tuple[NodeMap, ast.AST] | None:
+    """(node map D, looked-up node expression) for `D[x]` / `D.get(x)` / `D.get(x, <empty>)`."""
+    e = strip(e)
+    if isinstance(e, ast.Subscript) and isinstance(e.value, ast.Name) and e.value.id in m.node_maps and not isinstance(e.slice, ast.Slice):
+        return m.node_maps[e.value.id], e.slice
+    if isinstance(e, ast.Call) and isinstance(e.func, ast.Attribute) and e.func.attr == "get" and isinstance(e.func.value, ast.Name) and e.func.value.id in m.node_maps and e.args and not e.keywords:
+        return m.node_maps[e.func.value.id], e.args[0]
+    return None
+
+
+def _object_vars(m: SearchModel) -> list[str]:
+    """Locals that hold an object looked up in a node map: `o = D[n]`, `for o in D[n]`."""
+    out: list[str] = []
+    for n in ast.walk(m.fi.node):
+        tgt = val = None
+        if isinstance(n, ast.Assign) and len(n.targets) == 1 and isinstance(n.targets[0], ast.Name):
+            tgt, val = n.targets[0].id, n.value
+        elif isinstance(n, (ast.For, ast.AsyncFor, ast.comprehension)) and isinstance(n.target, ast.Name):
+            tgt, val = n.target.id, n.iter
+        if tgt is not None and _map_lookup(m, val) is not None and tgt not in out and tgt not in m.fi.param_names:
+            out.append(tgt)
+    return out
+
+
+def filed_under(m: SearchModel, ev: Event) -> tuple[str | None, NodeMap | None, str]:
+    """Which object a recorded pair is filed under, for a search that answers for a whole collection of objects at once:
+    (variable holding the object, node map it was looked up in, how) with how =
+      "lookup"  `o = D[neighbour]` / `R[D[neighbour]]`: the one object the map keeps for the node
+      "loop"    `for o in D[neighbour]`: every object the map keeps for the node
+      ""        not recognised"""
+    if ev.key is None:
+        return None, None, ""
+    nv = ev.nvar or m.neighbour_var
+    got = _map_lookup(m, ev.key)
+    if got is not None:
+        return None, got[0], "lookup" if norm(got[1]) == nv else ""
+    if not isinstance(ev.key, ast.Name):
+        return None, None, ""
+    k = ev.key.id
+    it = next((i for i in m.neighbour_iters if i.var == nv and i.gen is None and _inside_body(ev.call, i.node)), None)
+    scope = it.node if it is not None else m.loop
+    # a loop over the map entry that encloses the event
+    for a in ancestors(ev.call):
+        if a is scope:
+            break
+        if isinstance(a, (ast.For, ast.AsyncFor)) and isinstance(a.target, ast.Name) and a.target.id == k:
+            got = _map_lookup(m, a.iter)
+            return k, (got[0] if got else None), ("loop" if got and norm(got[1]) == nv else "")
+    stores = [n for n in ast.walk(scope) if isinstance(n, ast.Name) and n.id == k and isinstance(n.ctx, ast.Store)]
+    if len(stores) == 1 and isinstance(parent(stores[0]), ast.Assign) and len(parent(stores[0]).targets) == 1:
+        st = parent(stores[0])
+        got = _map_lookup(m, st.value)
+        if got is not None and cfg_of(m.fi).dominates(st, stmt_of(ev.call)):
+            return k, got[0], "lookup" if norm(got[1]) == nv else ""
+    return k, None, ""
+
+
+def _starts_from_filter_nodes(m: SearchModel) -> bool:
+    """The worklist is seeded with the node(s) of single module-filter parameters (`[dependent.identifier]`), not with a node set."""
+    return m.outer_kind == "while" and bool(m.worklist_sources) and all(any(s_ == f"{p}.{NODE_ATTR}" for p in m.filter_params) for s_ in m.worklist_sources)
+
+
+def _node_maps(m: SearchModel) -> dict[str, NodeMap]:
+    out: dict[str, NodeMap] = {}
+    fn = m.fi.node
+    for st in m.subtree_sites:
+        if st.param is None and st.collection is None:
+            continue
+        par = parent(st.call)
+        tvar = None
+        body: list[ast.AST] = []
+        if isinstance(par, (ast.For, ast.AsyncFor)) and par.iter is st.call and isinstance(par.target, ast.Name):
+            tvar, body = par.target.id, list(par.body)
+        elif isinstance(par, ast.comprehension) and par.iter is st.call and isinstance(par.target, ast.Name) and isinstance(parent(par), ast.DictComp):
+            dc = parent(par)
+            if isinstance(dc.key, ast.Name) and dc.key.id == par.target.id and isinstance(dc.value, ast.Name) and dc.value.id == st.arg:
+                recv, _ = _receiving_var(dc)
+                if recv is not None:
+                    out[recv] = NodeMap(recv, st.collection, st.param, True, dc)
+            continue
+        if tvar is None:
+            continue
+        for b in body:
+            for n in ast.walk(b):
+                if isinstance(n, ast.Assign) and len(n.targets) == 1 and isinstance(n.targets[0], ast.Subscript) and isinstance(n.targets[0].value, ast.Name) and isinstance(n.targets[0].slice, ast.Name) and n.targets[0].slice.id == tvar and isinstance(n.value, ast.Name) and n.value.id == st.arg:
+                    out[n.targets[0].value.id] = NodeMap(n.targets[0].value.id, st.collection, st.param, True, n)
+                elif isinstance(n, ast.Call) and isinstance(n.func, ast.Attribute) and n.func.attr in ("append", "add") and len(n.args) == 1 and isinstance(n.args[0], ast.Name) and n.args[0].id == st.arg:
+                    recv, key = _receiver_of(n.func.value)
+                    if recv and isinstance(key, ast.Name) and key.id == tvar:
+                        out[recv] = NodeMap(recv, st.collection, st.param, False, n)
+    # a map is only what the model says when nothing else writes to it
+    for name in list(out):
+        nm = out[name]
+        for n in ast.walk(fn):
+            writes = (isinstance(n, ast.Subscript) and isinstance(n.value, ast.Name) and n.value.id == name and isinstance(n.ctx, (ast.Store, ast.Del))) or (isinstance(n, ast.Call) and isinstance(n.func, ast.Attribute) and isinstance(n.func.value, ast.Name) and n.func.value.id == name and n.func.attr in ("update", "pop", "popitem", "clear", "setdefault", "__setitem__"))
+            if writes and not any(a is nm.store or a is stmt_of(nm.store) for a in [n, *ancestors(n)]):
+                out.pop(name, None)
+                break
+    return out
 
 
 def _is_empty_collection(e: ast.AST) -> bool:
@@ -2006,7 +2138,7 @@ def _subject_object(m: SearchModel) -> None:
         if len(seeds) == 1:
             m.subject_param = seeds[0]
             rest = [p for p in m.filter_params if p != seeds[0]]
-            m.object_param = rest[0] if len(rest) == 1 else None
+            m.object_param = rest[0] if len(rest) == 1 else m.collection_params[0] if not rest and len(m.collection_params) == 1 else None
     else:
         m.subject_param = m.filter_params[0] if len(m.filter_params) == 1 else None
 
